@@ -11,7 +11,7 @@ STACK_IDS = [s.id for s in pool.STACKS]
 
 # runs per build: (quick, thorough)
 HIST = {
-    'C12': dict(profile='ownership', groups=['core', 'io', 'conv'], compile_groups=('core',),
+    'C12': dict(profile='ownership', groups=['core', 'io', 'conv'], compile_groups=('core',), sweep='ownsweep',
                 builds=[('rel-plain', 160000, 3000000), ('dbg-asan', 30000, 500000), ('rel-asan', 30000, 500000)]),
     'C05': dict(profile='conversion', groups=['core', 'io', 'conv'], compile_groups=('conv',), sweep='convsweep',
                 builds=[('rel-plain', 120000, 2500000), ('dbg-asan', 30000, 500000)]),
@@ -109,14 +109,17 @@ def check(prop, tier, seed):
             for line in res['out']:
                 if line.startswith('SWEEP '):
                     n = int(line.split()[1])
-            reps = 4 if thorough else 1  # each repetition draws new values for the same structures
+            reps = 4 if thorough and cfg['sweep'] != 'ownsweep' else 1  # each repetition draws new values for the same structures
             t0 = time.time()
             results, stats = run.run_batch(exes[b], sargs, n * reps, workers_for(b))
             dt = time.time() - t0
             per_build[b + ' sweep'] = dict(runs=len(results), wall_s=round(dt, 2))
             total_runs += len(results)
             sweep_info = dict(profile=cfg['sweep'], plans_per_pass=n, passes=reps,
-                              bounds='extents 1..9 (N=1), 1..6 (N=2), 1..4 (N=3), 1..3 (N=4), all combinations')
+                              bounds=('every sequence Construct(slot 0) + %d further operations over a 20-symbol alphabet (construct/write/copy/move '
+                                      'construct, copy/move assign incl. self, destroy, default-construct, dump, load, load-assign on two slots) '
+                                      'for 6 representative stacks' % (4 if thorough else 3)) if cfg['sweep'] == 'ownsweep' else
+                              'extents 1..9 (N=1), 1..6 (N=2), 1..4 (N=3), 1..3 (N=4), all combinations')
             for k, v in stats.items():
                 all_stats[k] = all_stats.get(k, 0) + v
             for r in results:
